@@ -86,7 +86,10 @@ MapShapes == <<
   Single("m.string", MapOf(Fld("Tags", 1, "string"))),
   Single("m.int32", MapOf(Fld("Tags", 1, "int32"))),
   Single("m.enum", MapOf(Fld("Tags", 1, "enum"))),
-  Single("m.bytes", MapOf(Fld("Tags", 1, "bytes"))) >>
+  Single("m.bytes", MapOf(Fld("Tags", 1, "bytes"))),
+  \* the option stdtime / stdduration sits on the map field, not on the value field of its entry message
+  Single("m.time", MapOf(StdTime("Whens", 1))),
+  Single("m.dur", MapOf(StdDur("Durs", 1))) >>
 
 ObjShapes == <<
   WithLeaf("o.ptr", MsgF("Sub", 1, "Leaf")),
